@@ -1,4 +1,6 @@
 import LJT.Model.DecompCtl
+import LJT.Proofs.SkipSM
+import LJT.Proofs.MergedSM
 /-!
 # C08 - Partial decompression equals the same region of a full decode
 
@@ -10,10 +12,19 @@ unless it would pass the bottom, where it stops at the last row; an invalid regi
 rejected.
 
 Proved here: the dimension formula for all 16 regenerated factors, the crop-window
-arithmetic, the skip return value, the region validation.  The pixel clause (the
-read/skip state machine of jdapistd.c / jdmainct.c / jdsample.c / jdmerge.c) is decided
-by the `skiphist` oracle on the real decoder and is `partial`: it found three defects on
-the unchanged tree (known_findings.json D15, D16; both repaired).
+arithmetic, the skip return value, the region validation, and - for the decoder configurations
+that need no context rows and use the separate upsampler (no fancy upsampling of vertically
+subsampled chroma, no merged upsampling, no colour quantisation) - the read/skip state machine of
+jdapistd.c / jdmainct.c / jdsample.c itself (Model/SkipSM.lean, tied counter by counter to the
+real structures after every call by the `skipst` operation): after *any* history of read(n) and
+skip(n) calls, every delivered row is the row group and row of the iMCU row that its scanline
+number names, so two histories - in particular a partial one and a full decode - deliver rows of
+the same provenance at the same scanline (`histories_agree_on_every_scanline`).  That a row's
+pixels are a function of its provenance (entropy decoding of skipped iMCU rows keeps the coder
+state; IDCT, upsampling of one row group and colour conversion read nothing else) is outside this
+model and rests on the `skiphist` oracle, as do the context-row and merged-upsampling machines
+and the horizontal crop: for those the pixel clause is decided by the oracle on the real decoder
+only (known_findings.json D15..D19, D39, D43 were found there or here; D16 stays open).
 -/
 namespace LJT.C08
 open LJT.DecompCtl LJT.Gen
@@ -143,6 +154,113 @@ theorem region_validation_exact (sw sh mw x y w h : Int) (hsw : 0 ≤ sw) (hsh :
         · rintro (hz | ⟨_, _, _, _, e, _⟩)
           · exact absurd hz h0
           · exact absurd e hal
+
+/-! ### the read / skip state machine (no context rows, separate upsampler) -/
+open LJT.Skip in
+/-- **Every row a history delivers is the row of the image that its scanline number names.**  For every geometry
+(`M` row groups per iMCU row, `v` rows per row group, any height) and every sequence of `jpeg_read_scanlines(n)` /
+`jpeg_skip_scanlines(n)` calls - any `n`, including 0 and past the bottom - each delivered row comes from iMCU row
+`a`, row group `g < M`, row `r < v` with `a*M*v + g*v + r` equal to the scanline it is delivered at. -/
+theorem delivered_rows_are_where_they_belong (c : Cfg) (hM : 0 < c.M) (hv : 0 < c.v) (calls : List Call) :
+    ∀ ip ∈ (run c (init c) calls).2, ip.2.2.1 < c.M ∧ ip.2.2.2 < c.v ∧ Prov.line c ip.2 = ip.1 ∧ ip.1 < c.H := by
+  intro ip hip
+  obtain ⟨h1, h2, h3, _, h5⟩ := (run_spec c hM hv calls (init c) (init_inv c hM hv)).2 ip hip
+  exact ⟨h1, h2, h3, h5⟩
+
+open LJT.Skip in
+/-- **A full decode delivers every row once, in order**: `output_height` calls for one row deliver scanlines
+`0, 1, .., output_height - 1`. -/
+theorem full_decode_delivers_every_row (c : Cfg) (hM : 0 < c.M) (hv : 0 < c.v) :
+    (run c (init c) (List.replicate c.H (.rd 1))).2.map (·.1) = List.range c.H := by
+  have := (full_decode_gen c c.H (init c) (init_inv c hM hv) (by simp [init])).1
+  rw [this, List.range_eq_range']
+  rfl
+
+open LJT.Skip in
+/-- **A partial decode and a full decode agree**: whatever two histories deliver at the same scanline has the same
+provenance - same iMCU row, same row group, same row of the upsampled group. -/
+theorem histories_agree_on_every_scanline (c : Cfg) (hM : 0 < c.M) (hv : 0 < c.v) (h1 h2 : List Call)
+    (i : Nat) (p1 p2 : Prov) (m1 : (i, p1) ∈ (run c (init c) h1).2) (m2 : (i, p2) ∈ (run c (init c) h2).2) : p1 = p2 := by
+  obtain ⟨a1, a2, a3, _⟩ := delivered_rows_are_where_they_belong c hM hv h1 _ m1
+  obtain ⟨b1, b2, b3, _⟩ := delivered_rows_are_where_they_belong c hM hv h2 _ m2
+  obtain ⟨x, y, z⟩ := p1
+  obtain ⟨x', y', z'⟩ := p2
+  obtain ⟨e1, e2, e3⟩ := lineOf_unique c x y z x' y' z' a1 a2 b1 b2 (by
+    show Prov.line c (x, y, z) = Prov.line c (x', y', z')
+    rw [a3, b3])
+  subst e1; subst e2; subst e3; rfl
+
+open LJT.Skip in
+/-- **A read makes progress and delivers consecutive scanlines**: inside the image a request for `n >= 1` rows returns
+between 1 and `n` rows (at most the `v` rows of one row group), numbered from `output_scanline` upwards, and advances
+`output_scanline` by exactly that count; at the bottom, or for `n = 0`, nothing changes. -/
+theorem read_progress (c : Cfg) (hM : 0 < c.M) (hv : 0 < c.v) (calls : List Call) (n : Nat) :
+    let s := (run c (init c) calls).1
+    let r := step c s (.rd n)
+    r.1.y = s.y + r.2.2 ∧ r.2.1.map (·.1) = List.range' s.y r.2.2 ∧ r.2.2 ≤ n ∧ r.2.2 ≤ c.v ∧
+      (s.y < c.H → 1 ≤ n → 1 ≤ r.2.2) := by
+  intro s r
+  have hinv : InvW true c s := (run_spec c hM hv calls (init c) (init_inv c hM hv)).1
+  by_cases hH : c.H ≤ s.y
+  · have e : Skip.read c s n = (s, []) := by simp [Skip.read, hH]
+    simp only [r, step, e]
+    exact ⟨rfl, rfl, Nat.zero_le _, Nat.zero_le _, fun h => by omega⟩
+  · by_cases hn : n = 0
+    · have e : Skip.read c s n = (s, []) := by simp [Skip.read, hH, hn]
+      simp only [r, step, e]
+      exact ⟨rfl, rfl, Nat.zero_le _, Nat.zero_le _, fun _ h => by omega⟩
+    · obtain ⟨a, g, q, k, _, _, _, k1, k2, k3, hrows, hy', _⟩ := read_spec c s n hinv.weaken (by omega) (by omega)
+      have hlen : (Skip.read c s n).2.length = k := by rw [hrows]; simp
+      simp only [r, step, hlen]
+      refine ⟨hy', ?_, k2, by omega, fun _ _ => k1⟩
+      rw [List.map_map]
+      apply List.ext_getElem
+      · simp [hlen]
+      · intro j h1 h2
+        simp [List.getElem_zipIdx]
+
+open LJT.Skip in
+/-- **A skip is honoured exactly**: it delivers nothing, returns `min n (rows left)` and advances `output_scanline`
+by that amount, after any history. -/
+theorem skip_honoured_exactly (c : Cfg) (hM : 0 < c.M) (hv : 0 < c.v) (calls : List Call) (n : Nat) :
+    let s := (run c (init c) calls).1
+    let r := step c s (.sk n)
+    r.2.1 = [] ∧ r.2.2 = min n (c.H - s.y) ∧ r.1.y = s.y + min n (c.H - s.y) := by
+  intro s r
+  have hinv : InvW true c s := (run_spec c hM hv calls (init c) (init_inv c hM hv)).1
+  obtain ⟨_, h2, h3⟩ := skip_spec c s n hM hv hinv
+  exact ⟨rfl, h2, h3⟩
+
+/-! ### the same with the merged upsampler (jdmerge.c, 2:1 vertical sampling, spare row) -/
+open LJT.Skip in
+/-- **Merged upsampling: every history that avoids the situation of known finding D16 delivers the right rows.**  D16 = a
+skip that leaves the current iMCU row while the second row of a pair waits in the spare row (`d16`, decided on the model
+state before the call).  For every other history of read(n) / skip(n) calls the row delivered at each scanline is the
+row group and row of the iMCU row that the scanline names. -/
+theorem merged_rows_are_where_they_belong_partial (c : Cfg) (hM : 0 < c.M) (hv : c.v = 2) (calls : List Call)
+    (hfree : d16free c (minit c) calls = true) :
+    ∀ ip ∈ (mrun c (minit c) calls).2, ip.2.2.1 < c.M ∧ ip.2.2.2 < c.v ∧ Prov.line c ip.2 = ip.1 ∧ ip.1 < c.H := by
+  intro ip hip
+  obtain ⟨h1, h2, h3, _, h5⟩ := (mrun_spec c hv hM calls (minit c) (minit_inv c hM) hfree).2 ip hip
+  exact ⟨h1, h2, h3, h5⟩
+
+open LJT.Skip in
+/-- **The full statement is false of the code as it stands (known finding D16)**: with 8 row groups of 2 rows, after
+reading one row (its partner goes to the spare row) a skip of 17 rows ends on scanline 18 with the machine one row out
+of step (the stale spare row was consumed as scanline 16), and the next read delivers row 1 of row group 1 of iMCU row
+1 - image row 19 - as scanline 18.  The model is the code's (the `skipst` operation compares `spare_full` and the
+other counters after every call), and the same history on the real decoder is the replay of D16. -/
+theorem merged_d16_witness :
+    (mrun ⟨8, 2, 40⟩ (minit ⟨8, 2, 40⟩) [.rd 1, .sk 17, .rd 1]).2 = [(0, (0, 0, 0)), (18, (1, 1, 1))] ∧
+    Prov.line ⟨8, 2, 40⟩ (1, 1, 1) = 19 ∧
+    d16free ⟨8, 2, 40⟩ (minit ⟨8, 2, 40⟩) [.rd 1, .sk 17, .rd 1] = false := by decide
+
+-- non-vacuity: 4:2:0-like geometry (8 row groups of 2 rows), height 37; read 2, read 3 (only the 2 rows of one row
+-- group come back), skip 1 (inside the iMCU row), skip 20 (over an iMCU row boundary, ending inside a row group), read 2
+-- (one row comes back: the rest of that row group), read 2
+open LJT.Skip in
+example : (run ⟨8, 2, 37⟩ (init ⟨8, 2, 37⟩) [.rd 2, .rd 3, .sk 1, .sk 20, .rd 2, .rd 2]).2 =
+    [(0, (0, 0, 0)), (1, (0, 0, 1)), (2, (0, 1, 0)), (3, (0, 1, 1)), (25, (1, 4, 1)), (26, (1, 5, 0)), (27, (1, 5, 1))] := by decide
 
 -- non-vacuity: a 227x149 image at 3/8 is 86x56; a crop request (20, 30) with alignment 6
 example : outputDim 227 3 8 = 86 ∧ outputDim 149 3 8 = 56 ∧ cropWindow 6 20 30 = (18, 32) ∧
